@@ -69,7 +69,10 @@ def main(tier_, replay=None):
                 base.append(dict(c, query=q + " query ZR { __typename }", opname=name))
             else:
                 base.append(dict(c, query="query ZR { __typename } " + q + " query ZS { __typename }", opname=name))
-        cases = asyncio.run(c08.fault_variants(s, base, rng, per_fault))
+        cases = asyncio.run(c08.fault_variants(s, base[:len(c08.HAND_MUTATIONS)] if si == 0 else base, rng, per_fault,
+                                               root_kinds=("raise_coercible",) if si == 0 else ()))
+        if si == 0:
+            cases += asyncio.run(c08.fault_variants(s, base[len(c08.HAND_MUTATIONS):], rng, per_fault))
 
         async def go():
             out = []
